@@ -1079,3 +1079,42 @@ def np_argsort(ex, args, kw):
             e = z3.If(rank[i] == p, z3.IntVal(i), e)
         out.append(simp(e))
     return Vec(out, "array")
+
+
+@lib(NP, "unique")
+def np_unique(ex, args, kw):
+    """np.unique of a CONCRETE sequence (file names of a skeleton, small integer lists): sorted distinct values.  Symbolic
+    contents are outside the model (tasks that need them state the duplicate-free-enumeration contract themselves)."""
+    v = args[0]
+    items = v.items if isinstance(v, Vec) else (list(v) if isinstance(v, (list, tuple)) else None)
+    if items is None or any(is_z3(x) for x in items) or kw:
+        raise Unsupported("np.unique of symbolic contents")
+    if not all(isinstance(x, (str, int, float)) for x in items):
+        raise Unsupported("np.unique of non-scalar items")
+    return Vec(sorted(set(items)), "array")
+
+
+@lib(NP, "flatnonzero")
+def np_flatnonzero(ex, args, kw):
+    v = args[0]
+    if isinstance(v, Vec) and all(isinstance(x, bool) for x in v.items):
+        return Vec([i for i, x in enumerate(v.items) if x], "array")
+    from .parents import true_positions
+    a = as_ndarray(v)
+    if a.ndim != 1:
+        raise Unsupported("flatnonzero on rank > 1")
+    return true_positions(ex, a)
+
+
+@lib(NP, "vectorize")
+def np_vectorize(ex, args, kw):
+    """np.vectorize(f): f applied to every element of a concrete-length 1-D sequence (an array of the results)"""
+    f = args[0]
+
+    def mapped(ex_, a, k):
+        seq = ex_.as_iterable(a[0])
+        if not isinstance(seq, list):
+            raise Unsupported("np.vectorize over a symbolic-length array")
+        return Vec([ex_.call_value(f, [x]) for x in seq], "array")
+    mapped._pyvc_builtin = True
+    return mapped
